@@ -58,16 +58,30 @@ def gen_restype(g, name, atypes, idx, allow_vs=True, allow_angles=True, max_atom
                 break
     vsites = []
     if allow_vs and n >= 2 and g.random() < (0.9 if impossible else vs_p):
-        kind = g.choice(["n1", "n1", "2"] + (["3"] if n >= 3 else []))
+        kind = g.choice(["n1", "n1", "2"] + (["3", "3fd", "3fad", "3out"] if n >= 3 else []) + (["4fdn"] if n >= 4 else []))
         site = {"name": f"{prefix}V", "atype": g.choice(atypes)}
         if kind == "n1":
             k = g.randint(2, min(3, n))
             vsites.append({"kind": "n", "funct": 1, "from": list(range(k)), "params": []})
         elif kind == "2":
             vsites.append({"kind": "2", "funct": 1, "from": [0, 1], "params": [round(g.uniform(0.2, 0.8), 3)]})
-        else:
+        elif kind == "3":
             vsites.append({"kind": "3", "funct": 1, "from": [0, 1, 2],
                            "params": [round(g.uniform(0.1, 0.4), 3), round(g.uniform(0.1, 0.4), 3)]})
+        elif kind == "3fd":
+            vsites.append({"kind": "3", "funct": 2, "from": [0, 1, 2],
+                           "params": [round(g.uniform(0.2, 0.8), 3), round(g.uniform(0.05, 0.2), 3)]})
+        elif kind == "3fad":
+            vsites.append({"kind": "3", "funct": 3, "from": [0, 1, 2],
+                           "params": [round(g.uniform(60, 140), 1), round(g.uniform(0.05, 0.2), 3)]})
+        elif kind == "3out":
+            vsites.append({"kind": "3", "funct": 4, "from": [0, 1, 2],
+                           "params": [round(g.uniform(0.1, 0.4), 3), round(g.uniform(0.1, 0.4), 3),
+                                      round(g.uniform(-3.0, 3.0), 2)]})
+        else:
+            vsites.append({"kind": "4", "funct": 2, "from": [0, 1, 2, 3],
+                           "params": [round(g.uniform(0.3, 1.0), 3), round(g.uniform(0.3, 1.0), 3),
+                                      round(g.uniform(0.05, 0.2), 3)]})
         atoms.append(site)
     return {"vs_zero_mass": bool(vsites) and g.random() < 0.5, "name": name, "atoms": atoms, "bonds": bonds, "constraints": constraints,
             "angles": angles, "vsites": vsites, "blen": blen, "impossible": impossible}
@@ -139,7 +153,7 @@ def expand_moltype(mt, restypes):
             ids.append(aid)
         res_atom_ids[r] = ids
     sec = {"bonds": [], "constraints": [], "angles": [], "virtual_sitesn": [],
-           "virtual_sites2": [], "virtual_sites3": []}
+           "virtual_sites2": [], "virtual_sites3": [], "virtual_sites4": []}
     for r, rname in enumerate(mt["residues"]):
         rt = rtype(r, rname)
         ids = res_atom_ids[r]
@@ -158,8 +172,10 @@ def expand_moltype(mt, restypes):
                 sec["virtual_sitesn"].append(f"{site} {vs['funct']} {frm}")
             elif vs["kind"] == "2":
                 sec["virtual_sites2"].append(f"{site} {frm} {vs['funct']} {par}")
-            else:
+            elif vs["kind"] == "3":
                 sec["virtual_sites3"].append(f"{site} {frm} {vs['funct']} {par}")
+            else:
+                sec["virtual_sites4"].append(f"{site} {frm} {vs['funct']} {par}")
     for (ra, rb) in mt["edges"]:
         # link: last real atom of the lower residue - first atom of the higher residue
         ra, rb = sorted((ra, rb))
@@ -193,7 +209,7 @@ def render_itp(mt, restypes, atype_mass, with_mass=True):
         if with_mass:
             line += f" {0.0 if (resname, aname) in zero else atype_mass[atype]}"
         out.append(line)
-    for name in ("bonds", "constraints", "angles", "virtual_sitesn", "virtual_sites2", "virtual_sites3"):
+    for name in ("bonds", "constraints", "angles", "virtual_sitesn", "virtual_sites2", "virtual_sites3", "virtual_sites4"):
         if sec[name]:
             out.append(f"[ {name} ]")
             out.extend(sec[name])
